@@ -582,11 +582,25 @@ def m_complex(eng, st, args, kw, fr):
     return eng.native_call(st, complex, args, kw)
 
 
+class Identity:
+    """result of functools.wraps(f): a decorator that returns its argument (metadata copying is irrelevant here)"""
+
+
+IDENTITY = Identity()
+
+
+def m_wraps(eng, st, args, kw, fr):
+    return _ret(st, IDENTITY)
+
+
 def m_print(eng, st, args, kw, fr):
     return _ret(st, None)
 
 
+import functools as _functools
+
 DEFAULT_MODELS = {
+    _functools.wraps: m_wraps,
     print: m_print,
     complex: m_complex,
     int: m_int, abs: m_abs, min: m_minmax(True), max: m_minmax(False), divmod: m_divmod,
